@@ -20,7 +20,7 @@ type CheckSpec struct {
 	Assumptions []string `json:"assumptions"`
 	Quick       TierSpec `json:"quick"`
 	Thorough    TierSpec `json:"thorough"`
-	Native      []string `json:"native,omitempty"` // extra native checks (names handled by the caller)
+	FilterByID  bool     `json:"filter_by_id,omitempty"` // keep only assertions tagged with this property id
 }
 
 type KnownFinding struct {
@@ -95,8 +95,20 @@ func RunCheck(s *Session, verifDir, id, tier string, spec CheckSpec, known []Kno
 	queries := 0
 	coversSat := 0
 	knownSeen := map[string]bool{}
-	for _, h := range ts.Harnesses {
-		r := s.RunHarness(h)
+	var preps []*Prepared
+	for i, h := range ts.Harnesses {
+		if h.Tag == "" {
+			h.Tag = fmt.Sprintf("%s-%s-h%d", id, tier, i)
+		}
+		if len(h.Filter) == 0 && spec.FilterByID {
+			h.Filter = []string{id}
+		}
+		preps = append(preps, s.Prepare(h))
+	}
+	s.SolveAll(preps)
+	for _, p := range preps {
+		r := *p.res
+		h := r.Spec
 		results = append(results, r)
 		for _, f := range r.Encoded {
 			funcs[f] = true
